@@ -14,7 +14,7 @@ import gen
 import preds
 from driver import Driver
 from histories import run_history, apply_real, gen_ops
-from lockstep import real_simulate, Recorder, Crash
+from lockstep import real_simulate, Recorder, Crash, CrashBase
 from real import build, extract_model, snapshot, Index, TASK_RULES
 
 HERE = os.path.dirname(os.path.abspath(__file__))
@@ -223,11 +223,12 @@ def run_c17(ctx):
                 pr = build(spec)
                 ids1 = structure_ids(pr)
                 m0 = extract_model(pr)
-                cr = Recorder(Index(pr), crash_at=j)
+                # alternately an Exception and a BaseException (KeyboardInterrupt-like) abort
+                cr = Recorder(Index(pr), crash_at=j, crash_cls=(CrashBase if n_eval % 2 else Crash))
                 e = apply_real(pr, ops[0], cr)
                 cell = ctx.matrix.setdefault("crash-injection", dict(executions=0, disagreements=0))
                 cell["executions"] += 1
-                if not isinstance(e, Crash):
+                if not isinstance(e, (Crash, CrashBase)):
                     continue
                 if structure_ids(pr) != ids1 or extract_model(pr) != m0:
                     ctx.violations.append(dict(property="C17", what="exception at observer call %d of the inner run: predecessor/successor or workplace lists (or a helper task) not restored" % j,
@@ -245,7 +246,7 @@ def run_c17(ctx):
             if len(ctx.samples) < 2:
                 ctx.samples.append(dict(stream="c17", spec=spec, params=p, due=due, reverse=rev))
     finish(ctx, n_eval, fps, "random models; backward_simulate with both option flags and random due times, then forward simulate, compared with a fresh "
-                           "forward run; object identity and order of every dependency list before/after; an exception injected by the observer at "
+                           "forward run; object identity and order of every dependency list before/after; an exception (alternately an Exception and a BaseException subclass) injected by the observer at "
                            "observer call j of the inner run (quick: first, second, last and five random j; thorough: every j) followed by a forward run; "
                            "every op mirrored in the model; non-trivial = forward makespan >= 2")
 
